@@ -57,6 +57,10 @@ class RecordingZlib:
         self.tape.append(out)
         return out
 
+    def __getattr__(self, name):
+        # everything else a decompressobj offers (eof, unused_data, unconsumed_tail, flush, copy) is the real object's
+        return getattr(self._d, name)
+
 
 def _mixin(base):
     class Rec(base):
